@@ -101,6 +101,26 @@ def make_case(base_secs, variant, tmpdir):
     for pos, tag, body in variant.get("unknown", []):
         secs.insert(min(pos, len(secs)), (tag, body))
     text = render(secs, variant["nl"])
+    if variant.get("straddle") and "Filler" in [t for t, _ in secs]:
+        # size the filler section (an unknown section in front) so that a multi-byte character of the file straddles a block
+        # boundary of 4 / 8 / 64 KiB: its first byte is the last byte of a block
+        B = variant["straddle"]
+        i = next((k for k, ch_ in enumerate(text) if ord(ch_) > 0x7F), None)
+        if i is not None:
+            before = len(text[:i].encode("utf-8")) + (3 if variant["bom"] else 0)
+            pad = (B - 1 - before) % B
+            per = 64
+            body = []
+            nlw = len(variant["nl"])
+            while pad >= nlw + 1:
+                k = min(pad, per)
+                if 0 < pad - k < nlw + 1:
+                    k -= nlw + 1
+                body.append("y" * (k - nlw))
+                pad -= k
+            secs = [(t, body if t == "Filler" else b) for t, b in secs]
+            variant = dict(variant, unknown=[(p_, t, body if t == "Filler" else b) for p_, t, b in variant["unknown"]])
+            text = render(secs, variant["nl"])
     damage = variant.get("damage")
     ch, exc, out = run_impl(text, variant["by_path"], variant["bom"], None, tmpdir, damage)
     decoded = ("﻿" if (variant["by_path"] and variant["bom"]) else "") + text
@@ -163,6 +183,10 @@ def gen_variant(rng, n):
     elif r < 0.65 and by_path:
         # invalid UTF-8 somewhere in the file: UnicodeDecodeError, a ValueError
         v["damage"] = [rng.choice(["ff", "overlong", "surrogate", "cont", "truncate"]), rng.randrange(10 ** 6)]
+    elif r < 0.75 and by_path:
+        # a file larger than a read block whose first non-ASCII character straddles the block boundary
+        v["straddle"] = rng.choice([4096, 4096, 8192, 65536])
+        v["unknown"] = [(0, "Filler", [])]
     return v
 
 
